@@ -386,6 +386,9 @@ func c14XMLWrite(attr, t string, rep int) string {
 		sb.WriteString("<c>second</c>")
 	}
 	sb.WriteString(`<d k="` + xmlEsc(t, true) + `">inner</d>`)
+	if rep == 3 {
+		sb.WriteString("<c>second</c>")
+	}
 	sb.WriteString("</r>")
 	return sb.String()
 }
